@@ -323,3 +323,20 @@ bool synthInitial(const json& spec, NifFile& nif, Ctx& ctx, std::string* fileByt
 }
 
 } // namespace sim
+
+namespace sim {
+// One populated block of `type` for the model's version (C06: AddBlock / ReplaceBlock of arbitrary registered types).
+// refsOut: the reference objects that were read (i.e. that are serialised in this version) with their target class.
+std::unique_ptr<NiObject> synthBlock(NiHeader& hdr, const std::string& type, uint64_t seed, std::vector<std::pair<NiRef*, std::string>>* refsOut) {
+	GenBlock g = genOne(hdr, type, seed, !isBuilderOnly(type));
+	if (!g.obj) return nullptr;
+	if (hdr.GetVersion().File() >= V20_1_0_3)
+		for (auto sr : g.strs) {
+			if (sr->GetIndex() != NIF_NPOS && sr->GetIndex() >= hdr.GetStringCount()) sr->SetIndex(NIF_NPOS);
+			sr->get() = hdr.GetStringById(sr->GetIndex());
+		}
+	if (refsOut) *refsOut = g.refs;
+	return std::move(g.obj);
+}
+bool classDerivesFromPublic(const std::string& blockType, const std::string& base) { return classDerivesFrom(classOfBlockType(blockType), base); }
+} // namespace sim
